@@ -299,3 +299,22 @@ func VH_G_DeleteSchedule() {
 	out, err := s.DeleteSchedule(vhCtx, &pb.DeleteScheduleRequest{Id: vx.String("id"), RequestId: vx.String("requestId")})
 	vhReply(k, out != nil, err)
 }
+
+// VH_G_StatusTables: every status the kernel defines (read from the constant declarations of
+// the current source) can be rendered by String(), IsSuccessful() and the gRPC code mapping,
+// and maps to the code of its class.
+func VH_G_StatusTables() {
+	s := &server{}
+	all := vx.NamedConsts("internal/kernel/t_api", "StatusCode")
+	vx.Assert(len(all) >= 30, "C15:status-constants-found")
+	for _, v := range all {
+		st := t_api.StatusCode(v)
+		_ = st.String()
+		ok := st.IsSuccessful()
+		code := s.code(st)
+		vx.Assert(int(code) == vhWantCode(st), "C15:status-maps-to-the-code-of-its-class")
+		vx.Assert(ok == (st >= 20000 && st < 30000), "C15:successful-iff-2xx")
+		vx.Assert(int(st)/100 >= 200 && int(st)/100 <= 599, "C15:http-code-in-range")
+	}
+	vx.Reach("done")
+}
